@@ -334,6 +334,10 @@ def growth_oracle(case, toks, log, items):
             return v
         if a is not None:
             cap = a
+    msg = builtin_policy_check(case, log)
+    if msg:
+        v.failures.append(msg)
+        return v
     # bufferLimit iff refused
     n_refused = sum(1 for (_, a) in reqs if a is None)
     n_bl = sum(1 for t in toks if strip_growth(t).startswith('E:bl'))
@@ -690,9 +694,19 @@ def config_group_oracle(group):
     """C03: group = [(case, toks)] of the SAME input under different configurations; all flattened
     streams must be identical (no reference model involved)."""
     ref_case, ref = group[0]
-    a = flat_stream(ref)
+    a0 = flat_stream(ref)
+    for case, toks in group:
+        msg = builtin_policy_check(case, case.get('_log', ''))
+        if msg:
+            return msg + ' (capacity %d)' % case['cap']
     for case, toks in group[1:]:
         b = flat_stream(toks)
+        a = a0
+        # a policy that (according to its documentation) does not permit the needed size: only what came before counts
+        bl = next((k for k, t in enumerate(b) if t.startswith('E:bl')), None)
+        if bl is not None:
+            b = b[:bl]
+            a = a0[:bl]
         if a != b:
             i = next((k for k in range(min(len(a), len(b))) if a[k] != b[k]), min(len(a), len(b)))
             return 'configurations disagree at observation %d: %s... vs %s... (capacity %d/%s/chunk %d vs capacity %d/%s/chunk %d)' % (
@@ -1194,3 +1208,29 @@ def refwrite_oracle(case, toks):
                     v.failures.append('op %d: RefRecord::write gave %r, expected %r' % (idx, w[:80], want[:80]))
                     return v
     return v
+
+
+def builtin_policy_check(case, log):
+    """C09 (last clause), also used by C03: the crate's own policies answer what their documentation says -
+    double below the threshold, add the threshold above it, `DoubleUntilLimited` refuses exactly the sizes beyond
+    its limit. Judged on the recorded requests alone. Returns a message or None."""
+    pol = case.get('pol', '')
+    if any(op[0] == 'P' for op in case.get('ops', [])):
+        return None
+    parts = pol.split('.')
+    if parts[0] == 'std':
+        thr, lim = 1 << 23, None
+    elif parts[0] == 'du':
+        thr, lim = int(parts[1]), None
+    elif parts[0] == 'dul':
+        thr, lim = int(parts[1]), int(parts[2])
+    else:
+        return None
+    for (c, a) in parse_log(log):
+        want = c * 2 if c < thr else c + thr
+        if lim is not None and want > lim:
+            want = None
+        if a != want:
+            return 'built-in policy %s answered %s for the current size %d; its documentation says %s' % (
+                pol, 'a refusal' if a is None else a, c, 'refuse' if want is None else want)
+    return None
